@@ -11,24 +11,43 @@ inductive OnlyLt : Bytes → Bytes → Prop
   | same (c : UInt8) {a b : Bytes} : OnlyLt a b → OnlyLt (c :: a) (c :: b)
   | esc {a b : Bytes} : OnlyLt a b → OnlyLt (0x3C :: a) (0x26 :: 0x6C :: 0x74 :: 0x3B :: b)
 
-theorem filterLoop_onlyLt (f : Bytes → Bool) (raw : Bytes) (st : FState) (k : Nat) :
-    OnlyLt raw (filterLoop f raw st k) := by
-  fun_induction filterLoop f raw st k
-  case case7 c rest hc here h1 h2 tagLen nameLen escaped ih =>
-    have hc' : c = 0x3C := by simpa using hc
-    subst hc'
-    split
-    · exact OnlyLt.esc ih
-    · exact OnlyLt.same _ ih
-  all_goals first
-    | exact OnlyLt.nil
-    | (apply OnlyLt.same; assumption)
+theorem filterLoop_onlyLt (f : Bytes → Bool) (raw : Bytes) : OnlyLt raw (filterLoop f raw) := by
+  induction raw with
+  | nil => exact OnlyLt.nil
+  | cons c rest ih =>
+    unfold filterLoop
+    by_cases hc : c == 0x3C
+    · have hc' : c = 0x3C := by simpa using hc
+      subst hc'
+      simp only [beq_self_eq_true, if_true]
+      split
+      · exact OnlyLt.esc ih
+      · exact OnlyLt.same _ ih
+    · simp only [hc]
+      exact OnlyLt.same _ ih
 
-theorem filterLoop_id (f : Bytes → Bool) (hf : ∀ n, f n = false) (raw : Bytes) (st : FState) (k : Nat) :
-    filterLoop f raw st k = raw := by
-  fun_induction filterLoop f raw st k <;> try simp_all
-  rename_i escaped _ _ _ _
-  have : escaped = false := hf _
-  simp_all
+theorem filterLoop_id (f : Bytes → Bool) (hf : ∀ n, f n = false) (raw : Bytes) : filterLoop f raw = raw := by
+  induction raw with
+  | nil => rfl
+  | cons c rest ih =>
+    unfold filterLoop
+    by_cases hc : c == 0x3C
+    · have hc' : c = 0x3C := by simpa using hc
+      subst hc'
+      simp [hf, ih]
+    · simp [hc, ih]
+
+/-- The filter is a homomorphism for concatenation *except* for a tag name that straddles the seam: when the
+    left part does not end inside a name candidate it distributes. (Used to lift per-node facts to the output.) -/
+theorem filterLoop_append_of_noLt (f : Bytes → Bool) (a b : Bytes) (ha : ∀ c ∈ a, c ≠ 0x3C) :
+    filterLoop f (a ++ b) = a ++ filterLoop f b := by
+  induction a with
+  | nil => rfl
+  | cons c rest ih =>
+    have hc : (c == 0x3C) = false := by
+      have := ha c (by simp)
+      simpa using this
+    have := ih (fun x hx => ha x (by simp [hx]))
+    simp [filterLoop, hc, this]
 
 end CM.Proofs
